@@ -154,7 +154,16 @@ impl<R: BufRead + Seek + Position> ReadValue for ValueReader<R> {
         // the input. Casting it would produce a negative offset and move the
         // reader backwards.
         let offset = i64::try_from(len).map_err(|_| ProtobufError::new(ErrorKind::Eof))?;
-        self.inner.seek_relative(offset)?;
+        if offset == 0 {
+            return Ok(());
+        }
+
+        // Seeking beyond the end of a file or buffer is not an error. To
+        // verify that the skipped bytes exist, seek to the last one and read
+        // it.
+        self.inner.seek_relative(offset - 1)?;
+        let mut last = [0];
+        self.inner.read_exact(&mut last)?;
         Ok(())
     }
 
@@ -252,6 +261,10 @@ impl<R: BufRead> Position for ReadPos<R> {
 pub(crate) struct LimitReader<'a, R: ReadValue> {
     inner: &'a mut R,
     end: u64,
+
+    /// True if `end` is the end of an embedded message or field, as opposed
+    /// to the (unknown) end of the input.
+    bounded: bool,
 }
 
 impl<'a, R: ReadValue> LimitReader<'a, R> {
@@ -260,6 +273,15 @@ impl<'a, R: ReadValue> LimitReader<'a, R> {
         Self {
             end: inner.position().saturating_add(len),
             inner,
+            bounded: true,
+        }
+    }
+
+    /// Create a reader which reads up to the end of `inner`.
+    pub fn unbounded(inner: &'a mut R) -> Self {
+        Self {
+            bounded: false,
+            ..Self::new(inner, u64::MAX)
         }
     }
 
@@ -271,6 +293,7 @@ impl<'a, R: ReadValue> LimitReader<'a, R> {
         Ok(LimitReader {
             end,
             inner: self.inner,
+            bounded: true,
         })
     }
 
@@ -306,7 +329,15 @@ impl<'a, R: ReadValue> ReadValue for LimitReader<'a, R> {
     fn read_varint(&mut self) -> Result<u64, ProtobufError> {
         // Varints are at least 1 byte long, and can be up to 10.
         self.check_has_bytes(1)?;
-        self.inner.read_varint()
+        match self.inner.read_varint() {
+            // `ErrorKind::Eof` tells the caller that the end of the message
+            // or field was reached. If the input ends before that, the message
+            // or field is truncated.
+            Err(err) if self.bounded && matches!(err.kind(), ErrorKind::Eof) => {
+                Err(std::io::Error::from(std::io::ErrorKind::UnexpectedEof).into())
+            }
+            result => result,
+        }
     }
 
     fn read_bytes(
